@@ -2,6 +2,7 @@
 package c15
 
 import (
+	"math"
 	"crypto/x509"
 	"encoding/json"
 	"fmt"
@@ -33,6 +34,10 @@ type AttrCase struct {
 	TS               *TS            `json:",omitempty"`
 	Exts             map[string]any `json:",omitempty"`
 	ExtsEmpty        bool
+	// Unencodable: an extension value JSON cannot express is put under this key path ("" = none):
+	// nan | inf | chan | func, at the top level or nested one level down
+	Unencodable       string
+	UnencodableNested bool
 }
 
 func (c AttrCase) attrs() *message.Attributes {
@@ -49,8 +54,34 @@ func (c AttrCase) attrs() *message.Attributes {
 	} else if c.ExtsEmpty {
 		a.Exts = map[string]any{}
 	}
+	if c.Unencodable != "" {
+		var v any
+		switch c.Unencodable {
+		case "nan":
+			v = math.NaN()
+		case "inf":
+			v = math.Inf(-1)
+		case "chan":
+			v = unencodableChan
+		default:
+			v = unencodableFunc
+		}
+		if a.Exts == nil {
+			a.Exts = map[string]any{}
+		}
+		if c.UnencodableNested {
+			a.Exts["nested"] = map[string]any{"deep": []any{"x", v}}
+		} else {
+			a.Exts["odd"] = v
+		}
+	}
 	return a
 }
+
+var (
+	unencodableChan = make(chan int)
+	unencodableFunc = func() {}
+)
 
 func deepCopy(v any) any {
 	switch x := v.(type) {
@@ -127,12 +158,30 @@ func genJSONCase(t *rapid.T) AttrCase {
 	default:
 		c.Exts = vh.GenJSONMap(t, "exts", 3, 1)
 	}
+	if rapid.IntRange(0, 15).Draw(t, "unencodable") == 9 {
+		c.Unencodable = rapid.SampledFrom([]string{"nan", "inf", "chan", "func"}).Draw(t, "unencodableKind")
+		c.UnencodableNested = rapid.Bool().Draw(t, "unencodableNested")
+	}
 	return c
 }
 
 func execJSON(c AttrCase) (vh.Outcome, error) {
 	a := c.attrs()
 	before := c.attrs()
+	if c.Unencodable != "" {
+		// an extension value the JSON format cannot carry: the encoder can only refuse (whatever it returned
+		// instead could not decode to an equal attribute set); it must not crash or change its input
+		out := vh.Outcome{NonTrivial: true, Classes: []string{"json", "unencodable-extension"}}
+		var s string
+		var err error
+		if perr := vh.Catch(func() { s, err = a.Marshal() }); perr != nil {
+			return out, vh.Errf("Marshal crashed on an extension value JSON cannot express (%s): %v", c.Unencodable, perr)
+		}
+		if err == nil {
+			return out, vh.Errf("Marshal accepted an attribute set (interface version %d) whose extension map holds a value JSON cannot express (%s, nested %v) and produced %q: that text cannot decode to an equal attribute set", c.IfVer, c.Unencodable, c.UnencodableNested, s)
+		}
+		return out, nil
+	}
 	out := vh.Outcome{NonTrivial: len(c.Exts) > 0 || nonASCII(c.Username+c.Hostname+c.SSHClientVersion) || (c.TS != nil && *c.TS != TS{}),
 		Classes: []string{"json"}}
 	var s string
@@ -204,7 +253,7 @@ func nonASCII(s string) bool {
 
 func TestC15JSONRoundTrip(t *testing.T) {
 	vh.Run(t, vh.Spec[AttrCase]{Property: "C15", Name: "TestC15JSONRoundTrip",
-		Rule: "attribute sets with interface version >= 7: all booleans, algorithm numbers 0..5 / 0..17, touchless-sudo nil / empty / partially filled, extension maps nil / empty / nested to depth 3 with JSON-native values, arbitrary UTF-8 strings, ~8% empty required members. Oracle: Marshal errs iff a required member is empty; the text carries the attributes under the documented wire names; Unmarshal(Marshal(a)) equals a up to the documented normalisation (nil touchless-sudo = empty struct, empty map = nil). Non-trivial: non-empty extension map, non-ASCII text or touchless-sudo partly set; distinct by Case hash.",
+		Rule: "attribute sets with interface version >= 7: all booleans, algorithm numbers 0..5 / 0..17, touchless-sudo nil / empty / partially filled, extension maps nil / empty / nested to depth 3 with JSON-native values (rarely with a value JSON cannot express - NaN, -Inf, a channel, a function - which the encoder must refuse), arbitrary UTF-8 strings, ~8% empty required members. Oracle: Marshal errs iff a required member is empty; the text carries the attributes under the documented wire names; Unmarshal(Marshal(a)) equals a up to the documented normalisation (nil touchless-sudo = empty struct, empty map = nil). Non-trivial: non-empty extension map, non-ASCII text or touchless-sudo partly set; distinct by Case hash.",
 		Gen:  genJSONCase, Exec: execJSON})
 }
 
